@@ -65,6 +65,8 @@ def tasks(tier, seed=0):
         for q in ("eval1", "eval3", "cardinality", "collapse", "normalize", "copy"):
             out.append(task(M, "ob_dsis_query", f"dsis.{q}/consistent@w{w}", ["C23"], q=q, w=w, tier=tier))
     out.append(task(M, "ob_dsis_frame", "dsis._update_bounds/frame", ["C23"], w=2, tier=tier))
+    for q in ("collapse", "ULT"):
+        out.append(task(M, "ob_dsis_history", f"dsis.{q}-after-union/answers-for-the-current-members", ["C23"], w=2, tier=tier, query=q, replay="vf.contracts.vslift:replay_history"))
     for w in ([1, 2] if tier == "quick" else [1, 2, 3]):
         out.append(task("vf.contracts.si", "ob_hash", f"si.__hash__/separates-member-sets@w{w}", ["C23", "C21"], replay="vf.contracts.si:replay_hash", w=w, tier=tier))
     out.append(task(M, "ob_canary", "valueset+dsis.canaries/wrong-postconditions-fail", ["C23"], tier=tier))
